@@ -327,15 +327,15 @@ def life_scenarios(tier):
     """C12: every (Close point x fault x OnTracks error) scenario of ClientLife.tla with the outcomes the model allows"""
     allowed = {}
     design = {}
-    for cfg in ("MC_life_fmp4.cfg", "MC_life_ts.cfg"):
-        d = vlib.tlc("ClientLife", cfg, timeout=900, quiet=True)
+    for cfg in (("MC_life_fmp4_q.cfg", "MC_life_ts_q.cfg") if tier == "quick" else ("MC_life_fmp4.cfg", "MC_life_ts.cfg")):
+        d = vlib.tlc("ClientLife", cfg, timeout=1800, quiet=True)
         if not d.ok():
             raise vlib.Inconclusive("design model %s did not pass: %s %s\n%s" % (cfg, d.kind, d.violated, d.out[-2000:]))
         design[cfg] = [d.distinct, d.generated]
         for h in vlib.hist_lines(d.out):
             k = (h["fmp4"], tuple(h["close"]), tuple(h["fault"]), h["tracksErr"])
             allowed.setdefault(k, set()).add(h["outcome"])
-    for cfg in ("MC_life_weak_startNoSelect.cfg", "MC_life_weak_errorNoJoin.cfg"):
+    for cfg in ("MC_life_weak_startNoSelect.cfg", "MC_life_weak_errorNoJoin.cfg", "MC_life_weak_fixedCap.cfg"):
         d = vlib.tlc("ClientLife", cfg, timeout=900, quiet=True)
         if d.kind not in ("invariant", "temporal"):
             raise vlib.Inconclusive("weakened client life cycle %s was not refuted (%s)" % (cfg, d.kind))
@@ -376,6 +376,38 @@ def life_scenarios(tier):
                 sc = scenario("media", [st], "life-%s-%s%d-%s%d-%d-%d-%d" % (container, close[0], close[1], fault[0], fault[1], terr, slow, ms), **k2)
                 sc["modelOutcomes"] = sorted(outs)
                 scs.append(sc)
+    # leading stream + audio rendition (not in the model: judged by the ClientRun clauses only): request indices cover both streams
+    k = 0
+    for container in ("fmp4", "ts"):
+        nreq = 9 if container == "fmp4" else 7
+        closes = [("none", 0), ("tracks", 0), ("data", 1)] + [("req", i) for i in range(nreq)]
+        faults = [("none", 0)] + [(f, i) for f in ("status", "stall") for i in range(nreq)]
+        for c in closes:
+            for f in faults:
+                k += 1
+                if tier == "quick" and k % 4 != 0:
+                    continue
+                atr = aac(90000 if container == "ts" else 48000, 48000)
+                s0 = stream(container, [H264], [ver(0, 2, True, "VOD")], [900000], [1800], 1)
+                s1 = stream(container, [atr], [ver(0, 2, True, "VOD")], [900000 if container == "ts" else 480000], [step_of(atr, container)], 1,
+                            name="eng", lang="en", default=True)
+                kw = {"maxMs": 700, "slowData": 10 if k % 3 == 0 else 0}
+                if f[0] != "none":
+                    kw["faults"] = [{"req": f[1], "kind": f[0]}]
+                if c[0] == "req":
+                    kw["closeReq"] = c[1]
+                elif c[0] == "tracks":
+                    kw["closeWhen"] = "tracks"
+                elif c[0] == "data":
+                    kw["closeData"] = c[1]
+                scs.append(scenario("multi", [s0, s1], "life2-%s-%s%d-%s%d" % (container, c[0], c[1], f[0], f[1]), **kw))
+    # the completion channel of the stream processor (TokenCap in the model): segments with many part tracks (fragments x tracks)
+    for ntr, frags in ((4, 3), (2, 7), (3, 5)):
+        tr = [H264] + [aac(48000, 48000)] * (ntr - 1)
+        st = stream("fmp4", tr, [ver(0, 3, True, "VOD")], [900000] + [480000] * (ntr - 1), [1800] + [1024] * (ntr - 1), frags, frags=frags)
+        sc = scenario("media", [st], "life-parttracks-%dx%d" % (ntr, frags), maxMs=2500)
+        sc["modelOutcomes"] = ["eos"]
+        scs.append(sc)
     return scs, design
 
 
@@ -969,10 +1001,11 @@ def run(pid, tier, replay):
             return v.finish()
         design = {}
         if pid == "C11":
-            for cfg in (["MC_fetch_live_q.cfg", "MC_fetch_vod.cfg"] if tier == "quick" else ["MC_fetch_live.cfg", "MC_fetch_vod.cfg"]):
+            for cfg in (["MC_fetch_live_q.cfg", "MC_fetch_vod.cfg"] if tier == "quick" else ["MC_fetch_live.cfg", "MC_fetch_vod.cfg"]) + \
+                    ["MC_fetch_ll.cfg", "MC_fetch_ll_noskip.cfg"]:
                 d = vlib.tlc_must_pass("ClientFetch", cfg, timeout=900)
                 design[cfg] = [d.distinct, d.generated]
-            for cfg in ("MC_fetch_weak_ge.cfg", "MC_fetch_weak_jump.cfg"):
+            for cfg in ("MC_fetch_weak_ge.cfg", "MC_fetch_weak_jump.cfg", "MC_fetch_weak_skip.cfg"):
                 d = vlib.tlc("ClientFetch", cfg, timeout=300, quiet=True)
                 if d.kind != "invariant":
                     raise vlib.Inconclusive("weakened selection rule %s was not refuted (%s)" % (cfg, d.kind))
